@@ -370,6 +370,15 @@ def check_sparse(case, rec=None):
                                   "handed out by getframe do not carry the scan's current labels" %
                                   (step, smooth, countall), fn="getframe"))
                 break
+            # the counts the property speaks of: one entry per frame, and their total (however the labels are
+            # numbered across frames)
+            if not (len(sc.nlabels) == 3 and sc.nlabels[1] == 0 and sc.nlabels[0] == sc.nlabels[2] and
+                    int(sc.total_labels) == int(sc.nlabels.sum()) and
+                    int(sc.nlabels[0]) == (int(sc.labels[:nnz].max()) if nnz else 0)):
+                fails.append(fail("history", "step %d (countall=%s): nlabels %s, total_labels %s, largest label of the "
+                                  "first frame %s" % (step, countall, sc.nlabels.tolist(), sc.total_labels,
+                                                      int(sc.labels[:nnz].max()) if nnz else 0), fn="lmlabel"))
+                break
             exp_second = sc.labels[:nnz] + (sc.nlabels[0] if countall else 0)
             if not np.array_equal(sc.labels[nnz:], exp_second):
                 fails.append(fail("history", "step %d (countall=%s): labels of the second non-empty frame are not those "
